@@ -495,8 +495,33 @@ Definition good_table : list centry :=
 Definition good_store : store :=
   fun l => match l with Shared _ => 7 | Private t _ => Z.of_nat t + 10 end.
 
+(* a C library function that keeps its state in a hidden object of the process: the restartable
+   conversion mbrtowc(wcs, mbs, n, NULL) (likewise wcrtomb, mbrlen, ... with a NULL state, and
+   mbtowc/wctomb/strtok/localtime/...).  gen_statics.py lists every such call of the build as a row
+   "libc:<function>" of the statics table.  The hidden state of a UTF-8 decoder is the number of
+   continuation bytes still expected; one call = one atomic step (the C library does not lock it):
+     state 0, byte < 0x80       -> that character, state 0
+     state 0, lead byte >= 0xC0 -> -2 (incomplete), state 1
+     state > 0, continuation    -> state - 1
+     state > 0, anything else   -> -1 (EILSEQ), state 0
+   archive_wstring_append_from_mbs converts a name byte by byte like this. *)
+Definition S_mbstate := sname "archive_string.c" "libc:mbrtowc(NULL)".
+Definition mbr_fn (v : list Z) : list Z :=
+  let st := z0 v in let b := z1 v in
+  if st =? 0 then (if b <? 128 then [0; b] else if 192 <=? b then [1; -2] else [0; -1])
+  else (if (128 <=? b) && (b <? 192) then [st - 1; (if st =? 1 then 1000 + b else -2)] else [0; -1]).
+Definition mbr_call (t : nat) (k : string) : step :=
+  plain [Shared S_mbstate; Private t ("in" ++ k)] [Shared S_mbstate; Private t ("out" ++ k)] mbr_fn.
+(* handle 0 converts a two-character ASCII name; handle 1 converts a name that ends in a lead byte *)
+Definition prog_mbstate : prog := [ [mbr_call 0 "1"; mbr_call 0 "2"]; [mbr_call 1 "1"] ].
+Definition mbstate_store : store :=
+  fun l => match l with
+           | Private 0%nat "in1" => 98 | Private 0%nat "in2" => 99     (* "bc" *)
+           | Private 1%nat "in1" => 195                               (* "\xc3" and nothing after it *)
+           | _ => 0 end.
+
 (* the shared objects for which ThreadsProofs.v exhibits a racing schedule *)
 Definition witnessed : list string :=
   [ S_default_inode; S_default_dev; S_decode_B; S_crc16init; S_crc16tbl; S_debug_index; S_lst;
-    S_can_dupfd; S_dos_init; S_dos_max; S_dos_min; S_str ].
+    S_can_dupfd; S_dos_init; S_dos_max; S_dos_min; S_str; S_mbstate ].
 Definition has_witness (e : centry) : bool := existsb (String.eqb (ce_name e)) witnessed.
